@@ -46,7 +46,7 @@ T = {
          "statement's semantics executed literally in the model incl. Pi*A / A*Pi for the same Pi and undo by the transposed counterpart",
          "LAPACK swap form i <= P[i] < length; distinct rows for row addition; trusts the reference model"),
  "C14": (1, "exploration", "stateful model-based testing (rapidcheck-generated command lists against a model of the live set), allocation wrapper for the final balance",
-         "histories cross the 64-header block, the 16-block limit, the 16-slot block cache incl. eviction and dirty reuse, zero-area matrices and zero-area windows; invariants after every command",
+         "histories cross the 64-header block, the 16-block limit, the 16-slot block cache incl. eviction and dirty reuse, fini + init in mid-history, zero-area matrices and zero-area windows; invariants after every command; builds in which any ASan report (double free, free of a live block, use after free) is fatal",
          "the history is interpreted leniently (indices modulo the live set) so that every generated list is valid; the balance check needs the wrapper builds"),
  "C15": (1, "exploration", "property-based testing (rapidcheck-generated per-thread programs) under ThreadSanitizer + differential against the sequential execution",
          "2..16 threads on thread-private operands in the --enable-thread-safe configuration (header from the repository's configure); a race report terminates the process and is the verdict",
